@@ -38,7 +38,7 @@ META = {
 def run(ctx):
     obs = ctx.obs
     obs.extra['meta'] = META
-    total = ctx.n(240, 9000)
+    total = ctx.n(480, 10000)
     for case, rng in ctx.cases(total):
         conv = CONVENTIONS[case % len(CONVENTIONS)]
         spec = {'case': case, 'convention': conv}
